@@ -101,6 +101,12 @@ CHECKS["C12"] = dict(
     text="~500 projects per quick run (generated programs, e2e snippets, examples, a third of them with token mutations for non-empty diagnostics, one in eight a triple of Starknet test contracts); compared: diagnostics text, printed Sierra with debug names + statement annotations, canonical-id program, CASM text, ContractClass and CasmContractClass JSON. In ~85% of the cases the raw interned ids of the two runs differ, i.e. the history really permuted id allocation.",
     note="The harness owns query order, snapshot concurrency and pool size, not thread interleavings inside a pool. Raw interned ids (also inside the JSON form of debug-name ids and in the annotations keyed by them) legitimately depend on the history and are not compared.")
 
+CHECKS["C20"] = dict(
+    level="exploration", design="DESIGN.md 3/C20",
+    technique="differential property-based testing: the same dependent compiled in two databases that differ only in one crate's cache_file (the core library's blob from generate_crate_cache, or the blob of a generated library crate the dependent calls into), under random optimisation configurations; diagnostics, Sierra and CASM compared",
+    text="640 dependents per quick run: ~440 against the corelib cache (generated programs, e2e snippets, examples; ~28 core functions per dependent on average) and ~200 against a generated library crate's cache (in half of them the corelib is cached too).",
+    note="The blob is generated under the same global flags as it is used with (a different flag set is refused by the loader, a documented precondition), so the numeric-match flag stays unset. Dependents that panic on both sides are skipped.")
+
 PENDING_REASON = "check not built yet in this session (planned in DESIGN.md section 3; the property itself is amenable to the technique)"
 
 def main():
